@@ -116,51 +116,87 @@ def load_known():
         return json.load(f)
 
 
-def _evaluate_once(prog, prop, tier):
-    ctx = Ctx(prog, prop, tier)
+def _run_rules(prog, prop, tier):
+    """One Ctx per rule function of the property (with the floors of the rule ids it declared)."""
     mod = importlib.import_module("rules.%s" % prop)
+    floors = getattr(mod, "FLOORS", {})
+    parts = []
     for fn in mod.RULES:
+        c = Ctx(prog, prop, tier)
         try:
-            fn(ctx)
+            fn(c)
         except core.AnchorMissing as e:
-            ctx.violations.append({
-                "property": prop, "rule": ctx.cur_rule or fn.__name__,
-                "key": "%s|ANCHOR-MISSING|%s" % (ctx.cur_rule or fn.__name__, e),
+            c.violations.append({
+                "property": prop, "rule": c.cur_rule or fn.__name__,
+                "key": "%s|ANCHOR-MISSING|%s" % (c.cur_rule or fn.__name__, e),
                 "message": "anchor missing (failing closed): %s" % e,
                 "where": None, "found": None, "rule_text": None})
-    if hasattr(mod, "FLOORS"):
-        for rid, n in mod.FLOORS.items():
+        for rid in list(c.rules_desc):
+            if rid in floors:
+                c.floor(rid, floors[rid])
+        parts.append(c)
+    return parts
+
+
+def _merge(prog, prop, tier, parts):
+    ctx = Ctx(prog, prop, tier)
+    for c in parts:
+        ctx.instances.extend(c.instances)
+        ctx.violations.extend(c.violations)
+        ctx.samples.extend(c.samples)
+        for k, v in c.counts.items():
+            ctx.counts[k] = ctx.counts.get(k, 0) + v
+        ctx.notes.extend(c.notes)
+        ctx.assumptions.extend(x for x in c.assumptions if x not in ctx.assumptions)
+        ctx.rules_desc.update(c.rules_desc)
+        ctx.obligations += c.obligations
+        ctx.discharged += c.discharged
+    ctx.samples = ctx.samples[:60]
+    mod = importlib.import_module("rules.%s" % prop)
+    for rid, n in getattr(mod, "FLOORS", {}).items():
+        if rid not in ctx.rules_desc:       # a rule that never got as far as declaring itself
             ctx.floor(rid, n)
     return ctx
 
 
+def _evaluate_once(prog, prop, tier):
+    return _merge(prog, prop, tier, _run_rules(prog, prop, tier))
+
+
 def evaluate(prog, prop, tier="quick"):
     """Run the property's rules over a loaded program; returns the Ctx (violations, instances, ...).
-    The rules are evaluated on the functions as written. Only if that reports a violation that is not a listed known finding,
-    they are evaluated once more on the inlined view (engine/inline.py: private, call-only helper functions that did not exist when the
-    rules were written are spliced into their callers - a behaviour-preserving transformation); if the rules hold there, the property's structural conditions hold for the
-    program and that verdict is returned (with a note saying so). Otherwise the report on the functions as written stands."""
+    Every rule is evaluated on the functions as written. Only if some rule reports a violation that is not a listed known finding,
+    the rules are evaluated once more on the inlined view (engine/inline.py: private, call-only helper functions that did not exist when the
+    rules were written are spliced into their callers - a behaviour-preserving transformation). A rule that holds on either view holds
+    for the program (each rule decides its own structural condition, and both views denote the same behaviour), so per rule the passing
+    view is taken and a note says so; a rule that fails on both is reported as evaluated on the functions as written."""
     prog.asked = set()
-    ctx = _evaluate_once(prog, prop, tier)
+    parts = _run_rules(prog, prop, tier)
     known = {k["key"] for k in load_known().get("known", []) if k["property"] == prop}
-    if not [v for v in ctx.violations if v["key"] not in known] or os.environ.get("VERIF_NO_INLINE"):
-        return ctx
+    bad = lambda c: [v for v in c.violations if v["key"] not in known]
+    if not any(bad(c) for c in parts) or os.environ.get("VERIF_NO_INLINE"):
+        return _merge(prog, prop, tier, parts)
     try:
         from . import inline
         raw2, inl = inline.inline_raw(prog, set(prog.asked) | inline.baseline_functions())
         if not inl:
-            return ctx
+            return _merge(prog, prop, tier, parts)
         prog2 = core.Program(raw2)
-        ctx2 = _evaluate_once(prog2, prop, tier)
+        parts2 = _run_rules(prog2, prop, tier)
     except Exception:
-        return ctx
-    if [v for v in ctx2.violations if v["key"] not in known]:
-        return ctx
-    ctx2.notes.append("decided on the inlined view (private helpers spliced into their callers): the evaluation of the functions as written "
-                      "reported %d violation(s), e.g. %s; inlined: %s" % (
-                          len(ctx.violations), ctx.violations[0]["key"][:160],
-                          sorted("%s <- %s" % (f.split("::", 1)[-1], ", ".join(x.split("::")[-1] for x in g)) for f, g in inl.items())[:12]))
-    return ctx2
+        return _merge(prog, prop, tier, parts)
+    chosen, via = [], []
+    for c1, c2 in zip(parts, parts2):
+        if bad(c1) and not bad(c2):
+            chosen.append(c2)
+            via.append("%s (as written: %s)" % (", ".join(sorted(c2.rules_desc)) or "?", bad(c1)[0]["key"][:120]))
+        else:
+            chosen.append(c1)
+    ctx = _merge(prog, prop, tier, chosen)
+    if via:
+        ctx.notes.append("decided on the inlined view (new private helpers spliced into their callers): %s; inlined: %s" % (
+            "; ".join(via), sorted("%s <- %s" % (f.split("::", 1)[-1], ", ".join(x.split("::")[-1] for x in g)) for f, g in inl.items())[:12]))
+    return ctx
 
 
 def run_property(prop, tier="quick", seed=0, replay=None):
